@@ -177,7 +177,7 @@ theorem setElemRow_kid (kid : Int) (p : Dyadic) (e : Bytes) (x : ListRow) :
 theorem setElemRow_pos (kid : Int) (p : Dyadic) (e : Bytes) (x : ListRow) :
     (setElemRow kid p e x).pos = x.pos := by unfold setElemRow; split <;> rfl
 
-theorem insertSortedBy_map {β : Type} (lt : β → β → Bool) (g : β → β)
+theorem insertSortedBy_map_l {β : Type} (lt : β → β → Bool) (g : β → β)
     (hg : ∀ a b, lt (g a) (g b) = lt a b) (x : β) :
     ∀ l : List β, insertSortedBy lt (g x) (l.map g) = (insertSortedBy lt x l).map g
   | [] => rfl
@@ -185,16 +185,16 @@ theorem insertSortedBy_map {β : Type} (lt : β → β → Bool) (g : β → β)
     simp only [List.map_cons, insertSortedBy, hg]
     split
     · rfl
-    · rw [List.map_cons, insertSortedBy_map lt g hg x ys]
+    · rw [List.map_cons, insertSortedBy_map_l lt g hg x ys]
 
-theorem sortBy_map {β : Type} (lt : β → β → Bool) (g : β → β)
+theorem sortBy_map_l {β : Type} (lt : β → β → Bool) (g : β → β)
     (hg : ∀ a b, lt (g a) (g b) = lt a b) :
     ∀ l : List β, sortBy lt (l.map g) = (sortBy lt l).map g
   | [] => rfl
   | y :: ys => by
-    have ih := sortBy_map lt g hg ys
+    have ih := sortBy_map_l lt g hg ys
     simp only [sortBy, List.map_cons, List.foldr_cons] at ih ⊢
-    rw [ih, insertSortedBy_map lt g hg]
+    rw [ih, insertSortedBy_map_l lt g hg]
 
 theorem rowsOf_setElem (L : List ListRow) (kid : Int) (p : Dyadic) (e : Bytes) :
     rowsOf (L.map (setElemRow kid p e)) kid
@@ -203,7 +203,7 @@ theorem rowsOf_setElem (L : List ListRow) (kid : Int) (p : Dyadic) (e : Bytes) :
   rw [List.filter_map]
   have hf : ((fun r : ListRow => r.kid == kid) ∘ setElemRow kid p e) = (fun r => r.kid == kid) := by
     funext x; simp [Function.comp, setElemRow_kid]
-  rw [hf, sortBy_map _ _ (by intro a b; simp [setElemRow_pos])]
+  rw [hf, sortBy_map_l _ _ (by intro a b; simp [setElemRow_pos])]
   apply List.map_congr_left
   intro x hx
   have hk : x.kid = kid := by
